@@ -187,7 +187,7 @@ func (s gridSolid3) Contains(p model3d.Coord3D) bool {
 }
 
 func marginSections(r *vlib.Run) {
-	r.Section("ms.margin", r.N(1200, 12000), vlib.SectionOpts{Sequential: true}, func(c *vlib.Case) {
+	r.Section("ms.margin", r.N(800, 12000), vlib.SectionOpts{Sequential: true}, func(c *vlib.Case) {
 		rng := c.Rng
 		g := newGridBoxes(rng, 2)
 		s := gridSolid2{g}
